@@ -29,7 +29,7 @@ func init() {
 func matcherFunc(c *core.Ctx) *ssa.Function {
 	r := getRoles(c)
 	var m *ssa.Function
-	an.Calls(r.Router, func(call ssa.CallInstruction) {
+	an.Calls(r.Dispatch, func(call ssa.CallInstruction) {
 		sc := call.Common().StaticCallee()
 		if sc == nil || core.FuncPkgPath(sc) != c.P.Module {
 			return
@@ -139,7 +139,7 @@ func runPVRoute(c *core.Ctx) {
 	// router: handler arguments are elements of a successful match
 	n, okAll := 0, true
 	msg := ""
-	an.Calls(r.Router, func(call ssa.CallInstruction) {
+	an.Calls(r.Dispatch, func(call ssa.CallInstruction) {
 		sc := call.Common().StaticCallee()
 		if sc == nil || sc.Signature.Results().Len() != 1 || !isNamed(sc.Signature.Results().At(0).Type(), "net/http", "HandlerFunc") {
 			return
